@@ -624,7 +624,8 @@ func (state *BuildState) LogBuildError(label BuildLabel, status BuildResultStatu
 // logResult logs a build result directly to the state's queue.
 func (state *BuildState) logResult(result *BuildResult) {
 	result.Time = time.Now()
-	state.progress.internalResults <- result
+	// Record the failure before passing the result on; once a failure is visible to consumers the
+	// build can be wound down and the exit code decided before this goroutine runs again.
 	if result.Status.IsFailure() {
 		state.progress.failed.Store(true)
 		switch result.Status {
@@ -634,6 +635,7 @@ func (state *BuildState) logResult(result *BuildResult) {
 			state.progress.testFailed.Store(true)
 		}
 	}
+	state.progress.internalResults <- result
 }
 
 // forwardResults runs indefinitely, forwarding results from the internal
